@@ -171,8 +171,8 @@ def limitOfC (lim : Limits) : Ctor → Int
   | .allocate | .aggregate | .add_array | .add_array_self | .slice | .explode | .explode0 | .copy_array | .sort_array | .map_array | .filter_array | .unique_array | .array_sub | .array_and | .keys | .values | .regexp | .reg_assoc | .restore_array => lim.maxArray
   | .allocate_buffer | .add_buffer => lim.maxBuffer
   | .map_insert | .map_aggregate | .map_add | .copy_mapping | .allocate_mapping | .filter_mapping | .map_mapping | .map_compose | .map_compose_eq | .restore_mapping => lim.maxMapping
-  -- nesting depths reported by the LPC side: bounded by MAX_SAVE_SVALUE_DEPTH (copy) / by the text length (restore)
-  | .copy_nested => (NV.Gen.C04.maxSaveDepth : Int)
+  -- nesting depths reported by the LPC side: bounded by MAX_SAVE_SVALUE_DEPTH (copy, and restore since c9a3442)
+  | .copy_nested | .restore_nested => (NV.Gen.C04.maxSaveDepth : Int)
   | _ => lim.maxString
 
 /-- by name, as the line judge needs it (a name that is not a constructor is judged as a string) -/
